@@ -126,6 +126,9 @@ func runWorker(self string, spec WorkerSpec) (results []interp.CaseResult, loadS
 	cmd.Stdin = bytes.NewReader(in)
 	var stderr bytes.Buffer
 	cmd.Stderr = &stderr
+	if os.Getenv("VERIF_PROGRESS") != "" {
+		cmd.Stderr = os.Stderr
+	}
 	out, err := cmd.StdoutPipe()
 	if err != nil {
 		return nil, 0, 0, err.Error()
